@@ -977,7 +977,7 @@ theorem update_canon (g : GF) : ∀ (t : Tr R) (x : Option CM) (args : List Val)
     cases t <;> simp only [GF.update, reduceCtorEq] at h
     simp only [Option.bind_eq_bind, Option.bind_eq_some_iff, Option.pure_def,
       Option.some.injEq, Prod.mk.injEq] at h
-    obtain ⟨⟨a', wa, da⟩, ha, ⟨b', wb, db⟩, hb, disc, _, rfl, _⟩ := h
+    obtain ⟨xq, -, ⟨a', wa, da⟩, ha, ⟨b', wb, db⟩, hb, disc, _, rfl, _⟩ := h
     simp only [GF.Canon]
     exact ⟨iht _ _ _ _ _ _ ha, ihf _ _ _ _ _ _ hb⟩
   · intro e old x env subs s w d subsF r sF wF dF h
